@@ -85,6 +85,7 @@ func find(rs []Rcv, pred func(m wamp.Message) bool) wamp.Message {
 // within maxLat of virtual time (0: at the current instant).
 func HealthProbe(c *Ctx, w *World, realm wamp.URI, tag string, maxLat time.Duration) bool {
 	tag = strings.ToLower(tag)
+	c.DisarmDrops() // the probe's own replies must not be made to disappear
 	p := w.NewSess("probe"+tag, realm, true, 64, nil)
 	fail := func(what string) bool {
 		c.Violf("%s: router no longer serves an uninvolved session: %s (within %v)", tag, what, maxLat)
